@@ -792,6 +792,9 @@ func parentMain(c *Check, tier Tier, seed uint64, nworkers int, evidencePath, re
 			}
 		}
 	}
+	if probeFail != "" {
+		cov["probes_never_hit"] = strings.Fields(probeFail)
+	}
 	ev := evidence{PropertyID: c.ID, Tier: tier.String(), Seed: int64(seed & 0x7fffffffffffffff), Level: c.Level, Coverage: cov, Assumptions: c.Assumptions, WallS: wall, Violations: nviol}
 	b, _ := json.MarshalIndent(ev, "", " ")
 	os.MkdirAll(filepath.Dir(evidencePath), 0o755)
@@ -803,9 +806,11 @@ func parentMain(c *Check, tier Tier, seed uint64, nworkers int, evidencePath, re
 		fmt.Println(l)
 	}
 	fmt.Printf("%s %s: %d runs, %d distinct non-trivial scenarios, %d violations, %d known findings, %.1f s\n", c.ID, tier, total.Runs, len(nth), nviol, len(knownHit), wall)
-	if probeFail != "" && exit == 0 {
-		fmt.Fprintf(os.Stderr, "INFRASTRUCTURE: thorough tier self-check: probes never hit:%s\n", probeFail)
-		return 2
+	if probeFail != "" {
+		// reach, not correctness: recorded in the evidence (coverage.probes_never_hit)
+		// and said aloud, but never turned into a failing exit status - a tree that
+		// legitimately no longer takes a branch (e.g. no pooling) still holds the property
+		fmt.Fprintf(os.Stderr, "WARNING: thorough tier reach probes never hit:%s\n", probeFail)
 	}
 	return exit
 }
